@@ -173,42 +173,47 @@ func codecCmd(args []string) int {
 			"ok", ok, "consumed", consumed, "max_read", maxReq, "panicked", panicked)
 		stats["case"]++
 	}
-	for b := 0; b < 256; b++ {
-		tb := byte(b)
-		if !regBytes[tb] {
-			emitCase(tb, false, "small", "valid", 2, 2, append(frame(tb, 2, []byte("{}")), []byte("tail")...))
-			continue
+	// the frame classes are decided twice: on the bare codec, and again after a real frps and a real frpc service have been
+	// created in this process (service start-up may adjust the shared codec: the frame limit must still be the protocol's)
+	frameClasses := func() {
+		for b := 0; b < 256; b++ {
+			tb := byte(b)
+			if !regBytes[tb] {
+				emitCase(tb, false, "small", "valid", 2, 2, append(frame(tb, 2, []byte("{}")), []byte("tail")...))
+				continue
+			}
+			valid := bodies[tb]
+			if valid == nil {
+				valid = []byte("{}")
+			}
+			tail := []byte("TRAILING-BYTES-OF-THE-NEXT-FRAME")
+			// small
+			emitCase(tb, true, "small", "valid", len(valid), len(valid), frame(tb, int64(len(valid)), valid))
+			unk := append([]byte(`{"zzz_unknown":1,`), valid[1:]...)
+			if string(valid) == "{}" {
+				unk = []byte(`{"zzz_unknown":1}`)
+			}
+			emitCase(tb, true, "small", "valid-unknown-fields", len(unk), len(unk), frame(tb, int64(len(unk)), unk))
+			ws := []byte("[1,2,3]")
+			emitCase(tb, true, "small", "wrong-shape", len(ws), len(ws), frame(tb, int64(len(ws)), ws))
+			ij := []byte(`{"a":`)
+			emitCase(tb, true, "small", "invalid-json", len(ij), len(ij), frame(tb, int64(len(ij)), ij))
+			half := len(valid) / 2
+			emitCase(tb, true, "small", "truncated", len(valid), half, frame(tb, int64(len(valid)), valid[:half]))
+			emitCase(tb, true, "small", "trailing", len(valid), len(valid), append(frame(tb, int64(len(valid)), valid), tail...))
+			// zero / negative / oversize lengths
+			emitCase(tb, true, "zero", "valid", 0, 0, append(frame(tb, 0, nil), tail...))
+			emitCase(tb, true, "negative", "valid", 0, 0, append(frame(tb, -1, nil), valid...))
+			emitCase(tb, true, "negative", "valid", 0, 0, append(frame(tb, math.MinInt64, nil), valid...))
+			emitCase(tb, true, "max+1", "valid", 0, 0, append(frame(tb, 10241, nil), bytes.Repeat([]byte(" "), 10241)...))
+			emitCase(tb, true, "huge", "valid", 0, 0, append(frame(tb, 1<<62, nil), valid...))
+			// exactly the maximum: a valid body padded with JSON whitespace
+			pad := append(append([]byte{}, valid...), bytes.Repeat([]byte(" "), 10240-len(valid))...)
+			emitCase(tb, true, "max", "valid", 10240, 10240, append(frame(tb, 10240, pad), tail...))
+			emitCase(tb, true, "max", "truncated", 10240, 100, frame(tb, 10240, pad[:100]))
 		}
-		valid := bodies[tb]
-		if valid == nil {
-			valid = []byte("{}")
-		}
-		tail := []byte("TRAILING-BYTES-OF-THE-NEXT-FRAME")
-		// small
-		emitCase(tb, true, "small", "valid", len(valid), len(valid), frame(tb, int64(len(valid)), valid))
-		unk := append([]byte(`{"zzz_unknown":1,`), valid[1:]...)
-		if string(valid) == "{}" {
-			unk = []byte(`{"zzz_unknown":1}`)
-		}
-		emitCase(tb, true, "small", "valid-unknown-fields", len(unk), len(unk), frame(tb, int64(len(unk)), unk))
-		ws := []byte("[1,2,3]")
-		emitCase(tb, true, "small", "wrong-shape", len(ws), len(ws), frame(tb, int64(len(ws)), ws))
-		ij := []byte(`{"a":`)
-		emitCase(tb, true, "small", "invalid-json", len(ij), len(ij), frame(tb, int64(len(ij)), ij))
-		half := len(valid) / 2
-		emitCase(tb, true, "small", "truncated", len(valid), half, frame(tb, int64(len(valid)), valid[:half]))
-		emitCase(tb, true, "small", "trailing", len(valid), len(valid), append(frame(tb, int64(len(valid)), valid), tail...))
-		// zero / negative / oversize lengths
-		emitCase(tb, true, "zero", "valid", 0, 0, append(frame(tb, 0, nil), tail...))
-		emitCase(tb, true, "negative", "valid", 0, 0, append(frame(tb, -1, nil), valid...))
-		emitCase(tb, true, "negative", "valid", 0, 0, append(frame(tb, math.MinInt64, nil), valid...))
-		emitCase(tb, true, "max+1", "valid", 0, 0, append(frame(tb, 10241, nil), bytes.Repeat([]byte(" "), 10241)...))
-		emitCase(tb, true, "huge", "valid", 0, 0, append(frame(tb, 1<<62, nil), valid...))
-		// exactly the maximum: a valid body padded with JSON whitespace
-		pad := append(append([]byte{}, valid...), bytes.Repeat([]byte(" "), 10240-len(valid))...)
-		emitCase(tb, true, "max", "valid", 10240, 10240, append(frame(tb, 10240, pad), tail...))
-		emitCase(tb, true, "max", "truncated", 10240, 100, frame(tb, 10240, pad[:100]))
 	}
+	frameClasses()
 	// random garbage must never panic and never over-allocate
 	for i := 0; i < 2000; i++ {
 		n := rnd.Intn(64)
@@ -297,6 +302,21 @@ func codecCmd(args []string) int {
 		sink.Emit("drv", "codec.first", "class", k, "closed", closed, "closed_ms", time.Since(t0).Milliseconds(), "healthy_ok", pong, "sessions", len(srv.Svc.VerifState().Ctls))
 		stats["first"]++
 	}
+	// well-formed large logins (body up to the frame limit) are answered by the running server
+	for _, sz := range []int{2000, 2600, 5000, 9000, 10000} {
+		p, _, _ := peer.Login(srv.Addr, peer.LoginOpts{Token: env.Token, Metas: map[string]string{"pad": strings.Repeat("x", sz)}})
+		e := encode(&msg.Login{Metas: map[string]string{"pad": strings.Repeat("x", sz)}})
+		sink.Emit("drv", "codec.large", "body", len(e)-9+150, "accepted", p != nil)
+		if p != nil {
+			p.Close()
+		}
+		stats["large"]++
+	}
+	if cl, err := env.StartClient(srv.Cfg.BindPort, nil, nil, nil); err == nil {
+		time.Sleep(100 * time.Millisecond)
+		cl.Stop()
+	}
+	frameClasses()
 	healthy.Close()
 	srv.Stop()
 	sink.Close()
